@@ -11,10 +11,10 @@ Lemma hasn_push b k e : hasn_ok b -> hasn_ok (fst (push_entry b k e)).
 Proof.
   unfold hasn_ok. destruct k; simpl; auto. intros H _. destruct (qn b) eqn:E; auto. apply H. congruence.
 Qed.
-Lemma hasn_disp b oi batch b1 : hasn_ok b -> disp_lock b oi = (batch, b1) -> hasn_ok b1.
+Lemma hasn_disp b oi batch b1 oi' : hasn_ok b -> disp_lock b oi = Some (batch, b1, oi') -> hasn_ok b1.
 Proof.
-  unfold hasn_ok, disp_lock. intros H. destruct (qi b) eqn:Ei; [destruct oi; [|destruct (qn b) eqn:En]|];
-  intros E; injection E as <- <-; simpl; auto; try congruence; try (rewrite <- En; auto).
+  unfold hasn_ok. intros Hb H Hq. destruct (disp_lock_spec _ _ _ _ _ H) as (_ & Hn & _).
+  destruct (Hn Hq) as [|(E1 & E2)]; auto. rewrite E1. apply Hb. congruence.
 Qed.
 Lemma hasn_set_intr b : hasn_ok b -> hasn_ok (set_intr b).
 Proof. unfold set_intr. destruct (pol b && negb (intr b)); auto. Qed.
